@@ -104,6 +104,15 @@ def grid():
         C("gamma", [a, sc], stats.gamma(a, scale=sc), 0)
     for a, b in ((0.2, 0.2), (0.5, 0.5), (0.5, 3), (3, 0.5), (1, 1), (2, 5), (50, 50), (0.05, 1)):
         C("std_beta", [a, b], stats.beta(a, b), 0, 1)
+    # shape pairs that differ by exactly one, both orders (internal state shared between consecutive gamma draws)
+    for a, b in ((1.5, 0.5), (0.5, 1.5), (1.25, 0.25), (1.9, 0.9), (2.0, 1.0), (1.0, 2.0)):
+        C("std_beta", [a, b], stats.beta(a, b), 0, 1)
+    # ... and one gamma shape sampled right after another one, every time
+    for first, a in ((1.5, 0.5), (0.5, 1.5), (1.25, 0.25), (2.0, 1.0), (3.0, 2.0), (1.0 + 2.0 ** -52, 1.0)):
+        C("std_gamma_after", [first, a], stats.gamma(a), 0)
+    # hyperexponential with branch probabilities that sum to one only within the documented tolerance, last entry zero, far-out last mean
+    C("hyperexponential", vec(1, 2, 5000) + [0.5, 0.4995, 0.0], HyperExp([1, 2], [0.5, 0.5]), 0)      # the remainder belongs to the last branch that can be chosen at all
+    C("hyperexponential", vec(1, 2, 5000) + [0.5, 0.5, 0.0], HyperExp([1, 2], [0.5, 0.5]), 0)
     C("beta", [2, 3, -1, 2], stats.beta(2, 3, -1, 3), -1, 2)
     C("beta", [0.5, 0.5, 10, 10.5], stats.beta(0.5, 0.5, 10, 0.5), 10, 10.5)
     C("PERT", [1, 2, 5], stats.beta(2, 4, 1, 4), 1, 5)
